@@ -776,7 +776,7 @@ def run_cases(ctx, cases, noise=True):
         judge_flat(ctx, item, flat, answers2[2 * k], answers2[2 * k + 1] if item["case"].get("malformed") is None else None)
     if noise:
         for k, item in enumerate(items):
-            if item["case"]["valid"] and k % 2 == 0:
+            if item["case"]["valid"] and k % 2 == 0 and not item["case"].get("shape"):
                 judge_noise(ctx, item, ctx.rng.randint(0, 10 ** 9))
 
 
@@ -791,7 +791,19 @@ def run(ctx):
                             "Block.to_molecule (the model hands the collected moleculetype lines on unchanged)",
                             "the file system (modelled as a finite map from lexically normalised path to lines)",
                             "CPython float()/int() on the number tokens"]
-    ctx.assumptions += ["every directory named on an include path exists (the OS resolves dir/.. only then)",
+    ctx.extra["explanation"] = (
+        "Proof level: C08_flatten_equiv_partial (Lean, induction on include depth and on the lines of a file) shows for "
+        "every WELL-FORMED include tree that reading the tree and reading the flattened text give the same observables "
+        "(direction tree-read => flat-read); the counter `theorem_hypothesis_holds` in input_distribution says how many "
+        "generated trees are in that class.  The five dropped well-formedness clauses have kernel-checked counterexamples "
+        "(C08_cx_*) that the harness replays on the real code under VERIF_C08_FINDINGS=1 (shapes in notes/C08_findings.md). "
+        "The model is tied to the code by the translated section/atom_idxs tables and by the correspondence on every tree "
+        "(tree read and flattened read); the oracle is the relation of the statement between two REAL reads, plus #error iff, "
+        "[molecules] expansion, instance independence (mutation), whitespace/comment metamorphism and 'every moleculetype "
+        "equals its text read alone by vermouth'.")
+    ctx.assumptions += ["moleculetype names are unique within an include tree (grompp rejects duplicates; with two different "
+                        "definitions the one read last wins and the reading order of tree and flattened text differs)",
+                        "every directory named on an include path exists (the OS resolves dir/.. only then)",
                         "no [ macros ] section and no `$` in content lines (vermouth macro substitution not modelled)",
                         "include paths contain no blanks"]
     rng = ctx.rng
